@@ -12,7 +12,10 @@
    parked nodes are linked, linked nodes are live cells).
    C18_hashtable_survivors_dictionary - after any history, once all iterators are freed, the table behaves exactly
    like a dictionary of the surviving entries (MapHashProofs4.v).
-   Otherwise PARTIAL for the repaired code: proved are (1) the witnesses no longer fail, (2) on layer A (MapRefModel.v, run
+   C18_hashtable_coverage - present throughout => returned, exactly once when only removals happened (MapHashProofs6.v);
+   C18_hashtable_returns_present - only present entries are returned.  With these C18 is proved in full for the
+   pointer-level hashtable model.
+   SKIPLIST: PARTIAL - proved are (1) the witnesses no longer fail, (2) on layer A (MapRefModel.v, run
    against the library on every check) an iterator only ever returns entries that are present, with their
    current value, and nothing after it reported the end, (3) C17's theorems, which cover traversals abandoned via
    the callback.  MISSING (checked only by the ASan / monitor / correspondence run over generated interleavings):
@@ -21,7 +24,7 @@
    iterators. *)
 From Coq Require Import ZArith List NArith Bool.
 Require Import Verif.gen.Consts_map Verif.MapSpec Verif.MapHashModel Verif.MapSkipModel Verif.MapRefModel
-  Verif.MapRefProofs Verif.MapHashProofs Verif.MapHashProofs2 Verif.MapHashProofs3 Verif.MapHashProofs4 Verif.MapHashProofs5 Verif.MapSkipProofs.
+  Verif.MapRefProofs Verif.MapHashProofs Verif.MapHashProofs2 Verif.MapHashProofs3 Verif.MapHashProofs4 Verif.MapHashProofs5 Verif.MapHashProofs6 Verif.MapSkipProofs.
 Import ListNotations.
 
 (* hashtable: put a; iterator parked on a; rm a; get a (still answers 1); rm a again (succeeds, frees the node);
@@ -74,6 +77,32 @@ Theorem C18_hashtable_returns_present : forall s hi s' hi' k x ns,
   exists id n, deref (h_heap s) id = Ok n /\ hn_removed n = false /\ hn_key n = k /\ hn_val n = x /\ hi_node hi' = Some id.
 Proof. exact iter_next_returns_present. Qed.
 Print Assumptions C18_hashtable_returns_present.
+
+(* HASHTABLE, the coverage clauses of C18 for the pointer-level model, ALL histories (any interleaving, any number of
+   iterators): next to the run a ghost record per open iterator keeps stable = the keys present when the iterator was
+   created and not removed since, seen = the keys it returned, ins = whether a key was inserted since (g_step).
+   g_run states that at EVERY iter_next (g_check):
+     - if it returns a key and nothing was inserted since the iterator's creation, the key was not returned before
+       ("exactly once if only removals happened meanwhile");
+     - if it reports the end, every stable key has been returned ("every key present for the whole duration of the
+       iteration is returned by it", also when entries were inserted: "at least once"). *)
+Theorem C18_hashtable_coverage : forall hf rc m ops, g_run hf rc (h_create m) [] ops.
+Proof. exact hash_c18_coverage. Qed.
+Print Assumptions C18_hashtable_coverage.
+
+(* the invariant of that proof, one call: from a state satisfying the memory / dictionary invariants and the
+   per-iterator coverage invariant, the checks hold and the invariant holds again *)
+Theorem C18_hashtable_coverage_step : forall hf rc s o s' x ns g, Top s -> GoodQ hf s -> CovAll s g ->
+  h_step v_fixed hf rc s o = Ok (s', x, ns) ->
+  g_check s o x g /\ (h_alive s' = true -> CovAll s' (g_step s o x g)).
+Proof. exact cov_step. Qed.
+Print Assumptions C18_hashtable_coverage_step.
+
+Example C18_hashtable_coverage_example :
+  g_run hf8 rc_consts (h_create 8%N) []
+    [Put MapHashProofs.ka 1%N; Put MapHashProofs.kb 2%N; IterCreate 0 None; IterNext 0; Rm MapHashProofs.ka; Put [99%N] 3%N;
+     IterNext 0; IterNext 0; IterNext 0; IterFree 0].
+Proof. exact (hash_c18_coverage hf8 rc_consts 8%N _). Qed.
 
 (* the invariant behind it, one API call from any state that satisfies it (or from a destroyed map) *)
 Theorem C18_hashtable_invariant_step : forall hf rc s o, TopInv s ->
